@@ -191,6 +191,12 @@ func toEnum(src val.EnumList, v interface{}) (val.Enum, error) {
 	if v == nil {
 		return val.Enum{}, fmt.Errorf("could not coerce nil into enum %v", src.String())
 	}
+	if label, isText := v.(string); isText {
+		// text is the name of an enum before it is a number written as text
+		if e, found := src.ByLabel(label); found {
+			return e, nil
+		}
+	}
 	if id, isNum := val.Conv(val.FmtInt32, v); isNum == nil && id != nil {
 		if e, found := src.ById(id.Value().(int)); found {
 			return e, nil
